@@ -43,7 +43,14 @@ def gen_dep_cases(rng, n):
         for i in range(rng.randint(2, 6)):
             emb = [[rng.choice(POSITIONS), j] for j in range(i) if rng.random() < 0.5]
             emb = [e + [rng.randrange(i)] if e[0] == "o.pre" else e for e in emb]
-            tasks.append({"cls": rng.choice(["G", "GO"]), "k": i * 1000 + c, "embeds": emb})
+            cls = rng.choice(["G", "GO", "GO", "GPT"])
+            if cls == "GPT":
+                # pass-through task: its parameter `o` is the output of an upstream task (when there is one)
+                ups = [j for j in range(i) if tasks[j]["cls"] in ("GO", "GPT")]
+                if ups:
+                    j = rng.choice(ups)
+                    emb = [["o", j]] + [e for e in emb if not (e[0] in ("o", "o.pre") and True)]
+            tasks.append({"cls": cls, "k": i * 1000 + c, "embeds": emb})
         cases.append({"tasks": tasks})
     return cases
 
